@@ -343,17 +343,22 @@ pub fn run() -> Report {
         rep.machinery(format!("{} of {} layouts could not be judged (delivered heights differ from the layout model)", nj, rep.states));
     }
     // large disjoint layouts
-    for files in [200usize, 1200] {
+    for (files, obfuscated) in [(200usize, false), (1200, false), (200, true)] {
         let wk = Worker::new(&root, 600);
         let big = dependent_chain(btc, 0, files);
         let assign: Vec<usize> = (0..files).collect();
-        let world = world_for(&big, &assign);
+        let mut world = world_for(&big, &assign);
+        if obfuscated {
+            // a feature that has nothing to do with descriptors (block-file obfuscation) must not change how many are held
+            world.xor_key = Some(vec![0x3d, 0x9a, 0x00, 0xc7, 0x51, 0xee, 0x08, 0xb2]);
+            rep.count("large-layout-obfuscated", 1);
+        }
         if let Err(m) = wk.materialise(&world) {
             rep.machinery(m);
             continue;
         }
         rep.states += 1;
-        rep.nontrivial.insert(h8(format!("large{}", files).as_bytes()));
+        rep.nontrivial.insert(h8(format!("large{}{}", files, obfuscated).as_bytes()));
         let mut spec = RunSpec::new("bitcoin", "csvdump");
         spec.rlimit_nofile = n1;
         let r: RunResult = wk.run(&spec);
